@@ -1,4 +1,5 @@
 #![allow(dead_code, unused_imports, unused_variables)]
+mod c09;
 mod c13;
 mod c16;
 mod kzg;
@@ -28,6 +29,18 @@ fn conv(args: &[String]) {
                 match ty.as_str() {
                     "G1" => util::ser_hex(&util::exp_g::<G1Affine>(e)),
                     "G2" => util::ser_hex(&util::exp_g::<G2Affine>(e)),
+                    t if t.starts_with("G1@") => {
+                        use ark_ec::{AffineRepr, CurveGroup};
+                        use ark_serialize::CanonicalDeserialize;
+                        let b = G1Affine::deserialize_compressed(&util::unhex(&t[3..])[..]).unwrap();
+                        util::ser_hex(&(b.into_group() * e).into_affine())
+                    }
+                    t if t.starts_with("G2@") => {
+                        use ark_ec::{AffineRepr, CurveGroup};
+                        use ark_serialize::CanonicalDeserialize;
+                        let b = G2Affine::deserialize_compressed(&util::unhex(&t[3..])[..]).unwrap();
+                        util::ser_hex(&(b.into_group() * e).into_affine())
+                    }
                     _ => panic!("conv: unknown type {}", ty),
                 }
             })
@@ -57,6 +70,7 @@ fn main() {
                     "pc" => schemes::run(&c, &mut out),
                     "c16" => c16::run(&c, &mut out),
                     "c13" => c13::run(&c, &mut out),
+                    "c09" => c09::run(&c, &mut out),
                     "c08" => schemes::run_c08(&c, &mut out),
                     k => panic!("unknown case kind {}", k),
                 }));
